@@ -348,7 +348,7 @@ impl Property for C14 {
         let sys = systematic_table().len() as u64 * 5;
         match tier {
             Tier::Quick => sys + 3_000_000,
-            Tier::Thorough => sys + 40_000_000,
+            Tier::Thorough => sys + 20_000_000,
         }
     }
     fn generate(&self, seed: u64, run: u64, _tier: Tier, avoid: &BTreeSet<String>) -> C14Case {
